@@ -238,7 +238,7 @@ def run(pid, tier, seed, replay):
 
     # ---- J1 + export ------------------------------------------------------------------------------------
     if quick:
-        exp = {"forced": dict(), "forced-preexisting": dict(pre="TRUE", ms=6)}
+        exp = {"forced": dict(), "forced-preexisting": dict(pre="TRUE", ms=8)}
         free = {"interleaved": dict(atomic="FALSE", att=2, ms=7),
                 "interleaved-preexisting": dict(atomic="FALSE", att=2, ms=5, pre="TRUE")}
     else:
@@ -270,7 +270,7 @@ def run(pid, tier, seed, replay):
     if not scripts:
         raise vlib.Inconclusive("no scripts exported from the forced-schedule model")
     total_scripts = len(scripts)
-    cap = 2000 if quick else 12000
+    cap = 3500 if quick else 30000
     exhaustive = True
     if len(scripts) > cap:
         # always keep the small complete configuration (no pre-existing deployment), sample the rest
@@ -307,7 +307,7 @@ def run(pid, tier, seed, replay):
                 fh.write(json.dumps(s) + "\n")
         rfuts.append((op, pool.submit(run_vh, vh, ["replay", "-v", "-in", ip, "-out", op], 2400)))
     # free-running executions
-    nfree_p, nfree_n = (4, 150) if quick else (12, 1000)
+    nfree_p, nfree_n = (6, 300) if quick else (12, 2500)
     ffuts = []
     for k in range(nfree_p):
         op = os.path.join(work, "f%d.ndjson" % k)
